@@ -2,19 +2,21 @@
 import json, os, sys
 VERIF = os.path.dirname(os.path.dirname(os.path.abspath(__file__)))
 
-TB = ("Trusted: Lean 4.33.0 kernel + axioms propext/Classical.choice/Quot.sound (audited per theorem on every run, listed in the evidence); "
-      "the hand-written Lean model is tied to /repo by the correspondence harness (C, linked against libyara rebuilt from the working tree with "
-      "-DYARA_VERIF, ASan+UBSan) and the seeded Python generator; gcc, sanitizers. ")
+def load_checks():
+    """Every vf/checks/cNN.py exports MANIFEST = dict(technique, text, design_ref, note[, category])."""
+    import importlib
+    out = {}
+    d = os.path.join(VERIF, "vf", "checks")
+    for f in sorted(os.listdir(d)):
+        if f.startswith("c") and f.endswith(".py"):
+            m = importlib.import_module("vf.checks." + f[:-3])
+            if hasattr(m, "MANIFEST"):
+                out[f[:-3].upper()] = m.MANIFEST
+    return out
 
-CHECKS = {
-    "C20": dict(
-        technique="Lean 4 refinement proof (state machine = history-based 3-level environment spec, all op histories) + op-sequence correspondence against the real API",
-        text="proof: Thm/C20.lean proves for every operation history that the table-based model equals the history-based three-level specification "
-             "(most specific value, snapshot at creation, isolation, rejected definitions change nothing, result codes); the model is tied to the code by "
-             "running random define/create/scan sequences through the real compiler/rules/scanner API and the compiled Lean model and diffing every op's result.",
-        design_ref="DESIGN.md §5 C20",
-        note=TB + "Assumes small integer/dyadic values (no int64 wrap, no IEEE rounding); a variable is observed through probe conditions only."),
-}
+
+sys.path.insert(0, VERIF)
+CHECKS = load_checks()
 
 PENDING_REASON = "check not built yet in this round (planned, see DESIGN.md §8); not claimed until its machinery exists"
 
